@@ -155,11 +155,13 @@ func Start(t TestingT, opt ...Option) *Directory {
 	} else {
 		d.logger.Debug("not using TLS")
 	}
+	runErr := make(chan error, 1)
 	go func() {
 		err := d.s.Run(fmt.Sprintf("%s:%d", opts.withHost, opts.withPort), connOpts...)
 		if err != nil {
 			d.logger.Error("Error during shutdown", "op", "testdirectory.Start", "err", err.Error())
 		}
+		runErr <- err
 	}()
 
 	if v, ok := interface{}(t).(CleanupT); ok {
@@ -171,6 +173,13 @@ func Start(t TestingT, opt ...Option) *Directory {
 		time.Sleep(100 * time.Nanosecond)
 		if d.s.Ready() {
 			break
+		}
+		select {
+		case err := <-runErr:
+			// the server is not listening and never will be
+			require.NoError(err)
+			return d
+		default:
 		}
 	}
 	return d
